@@ -165,46 +165,6 @@ Proof.
     + pose proof (one_decider a b Hne) as H1. unfold masters in H1. rewrite Ma, Mb in H1. discriminate.
 Qed.
 
-(* completeness: if the ranges overlap, hashes agree and the non-master implements the
-   decided version, negotiation succeeds (so "both fail" is not vacuously chosen) *)
-Theorem success_when_compatible a b :
-  ep_id a <> ep_id b ->
-  (exists v, in_range (ep_vmin a) (ep_vmax a) v /\ in_range (ep_vmin b) (ep_vmax b) v) ->
-  (exists i, in_range (ep_vocmin a) (ep_vocmax a) i /\ in_range (ep_vocmin b) (ep_vocmax b) i) ->
-  (forall i, ep_hash a i = ep_hash b i) ->
-  (forall v, ep_accepts a v = true) -> (forall v, ep_accepts b v = true) ->
-  exists p, negotiate a b = (Banana p, Banana p).
-Proof.
-  intros Hne (v & Hva & Hvb) (i & Hia & Hib) Hh Haa Hab.
-  assert (Hov : forall a1 a2 b1 b2 w, in_range a1 a2 w -> in_range b1 b2 w ->
-            exists r, best_overlap a1 a2 b1 b2 = Ok r /\ in_range a1 a2 r /\ in_range b1 b2 r).
-  { intros a1 a2 b1 b2 w H1 H2. unfold in_range in *. exists (Z.min a2 b2). split; [apply best_overlap_ok; lia | lia]. }
-  assert (core : forall m s, (exists v, in_range (ep_vmin m) (ep_vmax m) v /\ in_range (ep_vmin s) (ep_vmax s) v) ->
-     (exists i, in_range (ep_vocmin m) (ep_vocmax m) i /\ in_range (ep_vocmin s) (ep_vocmax s) i) ->
-     (forall i, ep_hash s i = ep_hash m i) -> (forall v, ep_accepts s v = true) ->
-     exists p, (match eval_hello s m with
-       | Exc t => (Failed "peer-hung-up", Failed t)
-       | Ok _ => match master_decide m s with
-         | Exc t => (Failed t, Failed "RemoteNegotiationError")
-         | Ok d => match slave_accept s d with
-           | Exc t => (Failed "peer-hung-up", Failed t)
-           | Ok p => (Banana {| p_version := d_version d; p_vocab := d_vocab d |}, Banana p) end end end)
-       = (Banana p, Banana p)).
-  { intros m s (v' & Hm & Hs) (i' & Him & His) Hhs Has.
-    destruct (Hov _ _ _ _ _ Hs Hm) as (r0 & E0 & _). unfold eval_hello at 1. rewrite E0.
-    destruct (Hov _ _ _ _ _ Hm Hs) as (r1 & E1 & _). unfold master_decide, eval_hello. rewrite E1.
-    destruct (Hov _ _ _ _ _ Him His) as (r2 & E2 & _ & Hr2). rewrite E2.
-    unfold slave_accept; cbn [d_version d_vocab d_hash]. rewrite Has; cbn [negb].
-    pose proof (proj2 (check_inrange_ok _ _ _) Hr2) as Ec. rewrite Ec.
-    rewrite Hhs, Z.eqb_refl. cbn [negb]. rewrite andb_false_r. eexists; reflexivity. }
-  unfold negotiate.
-  destruct (i_am_master (ep_id a) (ep_id b)) eqn:Ma.
-  - apply core; eauto.
-  - destruct (i_am_master (ep_id b) (ep_id a)) eqn:Mb.
-    + destruct (core b a) as (p & Ep); eauto. rewrite Ep. eexists; reflexivity.
-    + pose proof (one_decider a b Hne) as H1. unfold masters in H1. rewrite Ma, Mb in H1. discriminate.
-Qed.
-
 (* non-vacuity: two concrete endpoints with different ranges negotiate (3, 1) *)
 Definition ex_a := {| ep_id := [98]; ep_vmin := 1; ep_vmax := 3; ep_vocmin := 0; ep_vocmax := 1;
                       ep_hash := fun i => i * 7; ep_accepts := fun _ => true |}.
@@ -213,11 +173,6 @@ Definition ex_b := {| ep_id := [97]; ep_vmin := 2; ep_vmax := 5; ep_vocmin := 1;
 Example negotiate_example :
   negotiate ex_a ex_b = (Banana {| p_version := 3; p_vocab := 1 |}, Banana {| p_version := 3; p_vocab := 1 |}).
 Proof. vm_compute. reflexivity. Qed.
-
-(* a received header longer than the cap is refused (constant read from dataReceived) *)
-Definition header_refused (buffered : Z) : bool := negotiation_header_cap <? buffered.
-Theorem header_cap_4096 n : header_refused n = true <-> 4096 < n.
-Proof. unfold header_refused, negotiation_header_cap. rewrite Z.ltb_lt. reflexivity. Qed.
 
 (* ------------------------------------------------------------------ *)
 (* The verdict on a header block, read from Negotiation.dataReceived by symbolic execution (whatever the arrangement of the
@@ -242,18 +197,33 @@ Proof.
   zcases; try reflexivity; lia.
 Qed.
 
-(* consequences used by the splitter model (lib/NegSplit.v): *)
-Corollary header_refused_beyond_cap eoh buflen : 4096 < eoh -> header_verdict eoh buflen = 0.
-Proof. intros H. rewrite header_verdict_spec. unfold header_spec, negotiation_header_cap, negotiation_noterm_slack. zcases; try reflexivity; lia. Qed.
+(* the cap, stated over the TRANSLATED verdict (0 = refuse, 1 = wait, 2 = split): *)
+Ltac verdict_cases := rewrite header_verdict_spec; unfold header_spec, negotiation_header_cap, negotiation_noterm_slack; zcases.
 
-Corollary header_waits_below_limit buflen : buflen < 4100 -> header_verdict (-1) buflen = 1.
-Proof. intros H. rewrite header_verdict_spec. unfold header_spec, negotiation_header_cap, negotiation_noterm_slack. zcases; try reflexivity; lia. Qed.
+(* a terminator found beyond 4096 bytes is refused, however much is buffered *)
+Theorem header_verdict_beyond_cap eoh buflen : 4096 < eoh -> header_verdict eoh buflen = 0.
+Proof. intros H. verdict_cases; try reflexivity; lia. Qed.
 
-Corollary header_refused_without_terminator buflen : 4100 <= buflen -> header_verdict (-1) buflen = 0.
-Proof. intros H. rewrite header_verdict_spec. unfold header_spec, negotiation_header_cap, negotiation_noterm_slack. zcases; try reflexivity; lia. Qed.
+(* without a terminator (bytes.find gives -1) the buffer is refused exactly from 4096 + 4 bytes on: 4097..4099 bytes are KEPT,
+   because a terminator that starts within the cap may still be completed by the next packet *)
+Theorem header_verdict_noterm buflen : header_verdict (-1) buflen = 0 <-> 4100 <= buflen.
+Proof. verdict_cases; split; intros; try reflexivity; try discriminate; lia. Qed.
 
-Corollary header_split_within_cap eoh buflen : 0 <= eoh <= 4096 -> header_verdict eoh buflen = 2.
-Proof. intros H. rewrite header_verdict_spec. unfold header_spec, negotiation_header_cap, negotiation_noterm_slack. zcases; try reflexivity; lia. Qed.
+Theorem header_verdict_noterm_waits buflen : header_verdict (-1) buflen = 1 <-> buflen < 4100.
+Proof. verdict_cases; split; intros; try reflexivity; try discriminate; lia. Qed.
+
+(* a terminator within the cap is split there, whatever follows it *)
+Theorem header_verdict_within_cap eoh buflen : 0 <= eoh <= 4096 -> header_verdict eoh buflen = 2.
+Proof. intros H. verdict_cases; try reflexivity; lia. Qed.
+
+(* both halves in one statement (C13_header_cap, C11_negotiation_cap) *)
+Theorem header_cap_verdict :
+  (forall eoh buflen, 4096 < eoh -> header_verdict eoh buflen = 0) /\
+  (forall buflen, header_verdict (-1) buflen = 0 <-> 4100 <= buflen).
+Proof. split; [exact header_verdict_beyond_cap | exact header_verdict_noterm]. Qed.
+
+Example header_4097_without_terminator_is_kept : header_verdict (-1) 4097 = 1 /\ header_verdict (-1) 4100 = 0 /\ header_verdict 4097 5000 = 0.
+Proof. vm_compute. auto. Qed.
 
 (* ------------------------------------------------------------------ *)
 (* Round 5: the decider for ANY two endpoints, "exactly when", the kind of failure, a misbehaving decider *)
@@ -410,6 +380,23 @@ Proof.
   unfold master_decide, eval_hello. destruct (best_overlap (ep_vmin m) _ _ _) as [ver|] eqn:E1; [|discriminate].
   destruct (best_overlap (ep_vocmin m) _ _ _) as [idx|] eqn:E2; [|discriminate]. intros E; inversion E; subst; cbn.
   apply best_overlap_common in E1, E2. destruct E1 as (_ & ? & _), E2 as (_ & ? & _). split; assumption.
+Qed.
+
+(* completeness with the hypothesis on the accept methods reduced to the class invariant of Negotiation.__init__ (every version of
+   the OWN range has its accept method); `forall v, ep_accepts e v = true` would be false of any endpoint modelling the real class *)
+Theorem success_when_compatible a b :
+  ep_id a <> ep_id b ->
+  (exists v, in_range (ep_vmin a) (ep_vmax a) v /\ in_range (ep_vmin b) (ep_vmax b) v) ->
+  (exists i, in_range (ep_vocmin a) (ep_vocmax a) i /\ in_range (ep_vocmin b) (ep_vocmax b) i) ->
+  (forall i, ep_hash a i = ep_hash b i) ->
+  implements_own_range a -> implements_own_range b ->
+  exists p, negotiate a b = (Banana p, Banana p).
+Proof.
+  intros Hne (v & Hva & Hvb) (i & Hia & Hib) Hh Ia Ib.
+  destruct (agreement_exact a b Hne Ia Ib) as [S _].
+  destruct S as (p & E & _); [|exists p; exact E].
+  split; [exists v; auto|]. unfold in_range in *.
+  exists (Z.min (ep_vocmax a) (ep_vocmax b)). repeat split; try lia. intros _. apply Hh.
 Qed.
 
 Example compatible_example : compatible ex_a ex_b /\ implements_own_range ex_a /\ implements_own_range ex_b /\ ep_id ex_a <> ep_id ex_b.
